@@ -291,7 +291,7 @@ let observe_dir st (l : seg list) (ro : bool) : string list =
   List.rev !res
 
 (* Backup of the current directory state into a named target *)
-let do_backup st (name : string) : string =
+let run_backup st (name : string) : string =
   (* F4 repair applies: the lazy index rebuild runs before the copy *)
   let src_state =
     match st.s.opened with
@@ -301,14 +301,13 @@ let do_backup st (name : string) : string =
   | Bad e -> err e
   | Good () ->
     let src = if st.s.lvirt then [] else st.s.segs in
-    if List.exists (fun sg -> sg.sidx = None) src then "err NotExist"
-    else begin
-      let old = (try List.assoc name st.backups with Not_found -> []) in
-      let keep = List.filter (fun o -> not (List.exists (fun n -> n.sbase = o.sbase) src)) old in
-      let merged = List.sort (fun a b -> compare (int_of_z a.sbase) (int_of_z b.sbase)) (keep @ src) in
-      st.backups <- (name, merged) :: List.remove_assoc name st.backups;
-      "ok"
-    end
+    let old = (try List.assoc name st.backups with Not_found -> []) in
+    (* Backup.do_backup (extracted): needs both files of every segment; merges by file name *)
+    (match Kvmodel.do_backup old src with
+     | Err e -> err e
+     | Ok merged ->
+       st.backups <- (name, merged) :: List.remove_assoc name st.backups;
+       "ok")
 
 let fmt_files (l : seg list) (p : params) : string =
   String.concat "" (List.map (fun sg ->
@@ -471,7 +470,7 @@ let step st (f : string array) : string list =
         + (match sg.sidx with None -> 0 | Some ix -> int_of_z (idx_size p ix)))
         0 (if st.s.lvirt then [] else st.s.segs) in
     ["ok " ^ string_of_int total]
-  | "backup" | "backupdir" -> [do_backup st (a 1)]
+  | "backup" | "backupdir" -> [run_backup st (a 1)]
   | "bkobs" ->
     let l = (try List.assoc (a 1) st.backups with Not_found -> []) in
     observe_dir st l (a 2 = "1")
